@@ -312,9 +312,18 @@ func VString(v *ast.Value) string { panic("ghost") }
 //@ modifies-assumed fresh
 //@ end
 
+// C03: every directive definition of every service is in the merged schema (the last service wins on a shared name)
 //@ func mergeDirectives
 //@ props C03
-//@ modifies-assumed fresh
+//@ requires forall(k, 0, len(sources), sources[k] != nil)
+//@ ensures[kept] result != nil && forall(k, 0, len(sources), forallT(n, string, has(sources[k].Directives, n) ==> has(result, n)))
+//@ ensures[only] forallT(n, string, has(result, n) ==> exists(k, 0, len(sources), has(sources[k].Directives, n) && sources[k].Directives[n] == result[n]))
+//@ modifies fresh
+//@ loop 0 invariant[kept] result != nil && fresh(result) && forall(k, 0, it, forallT(n, string, has(sources[k].Directives, n) ==> has(result, n))) @using kept, grow
+//@ loop 0 invariant[only] forallT(n, string, has(result, n) ==> exists(k, 0, it, has(sources[k].Directives, n) && sources[k].Directives[n] == result[n])) @using only, grow, rest
+//@ loop 1 modifies result[*]
+//@ loop 1 invariant[grow] result != nil && fresh(result) && forallT(n, string, atloop(has(result, n)) ==> has(result, n)) && forallT(n, string, seen(n) ==> has(schema.Directives, n) && has(result, n) && result[n] == schema.Directives[n])
+//@ loop 1 invariant[rest] forallT(n, string, has(result, n) && !seen(n) ==> atloop(has(result, n)) && result[n] == atloop(result[n]))
 //@ end
 
 //@ func formatSchema
